@@ -52,7 +52,8 @@ import (
 type cfg struct {
 	name     string
 	args     []string // between the program name and the IDL path, without -o
-	diagOnly bool     // quick tier: baseline + the 7 diagonals only, on the annotated program only
+	diagOnly bool     // an option on its own. quick: baseline + the 7 diagonals, on the annotated program only;
+	// thorough: every program; per-site deviations (start 1) on the annotated program, diagonals elsewhere
 }
 
 type outcome struct {
@@ -189,7 +190,7 @@ func main() {
 		name := "go:" + strings.Join(l, ",") + " -r"
 		if !have[name] {
 			have[name] = true
-			cfgs = append(cfgs, cfg{name, []string{"-g", "go:" + strings.Join(l, ","), "-r"}, !thorough})
+			cfgs = append(cfgs, cfg{name, []string{"-g", "go:" + strings.Join(l, ","), "-r"}, true})
 		}
 	}
 	var mu sync.Mutex
@@ -267,7 +268,7 @@ func main() {
 	var sampleIters []string
 	for _, dp := range dps {
 		for _, c := range cfgs {
-			if c.diagOnly && dp.name != "annotated-same-base-name" {
+			if c.diagOnly && !thorough && dp.name != "annotated-same-base-name" {
 				continue
 			}
 			key := dp.name + "|" + c.name
@@ -351,12 +352,12 @@ func main() {
 			}
 			mu.Unlock()
 			for _, pc := range siteOrder {
-				if c.diagOnly {
+				if c.diagOnly && (!thorough || dp.name != "annotated-same-base-name") {
 					break
 				}
 				st := sites[pc]
 				starts := []int{1}
-				if thorough {
+				if thorough && !c.diagOnly {
 					starts = nil
 					for v := 1; v < 8<<uint(st.maxB); v++ {
 						starts = append(starts, v)
@@ -368,7 +369,7 @@ func main() {
 					jobs = append(jobs, job{fmt.Sprintf("-1,0,-1,0,0,%s,%d", pc, v), fmt.Sprintf("all %d iterations made by %s start at %d", st.count, st.fn, v), st.first})
 				}
 			}
-			if thorough && (dp.name == "interplay" || dp.name == "annotated-same-base-name") {
+			if thorough && !c.diagOnly && dp.name == "interplay" && (c.name == "go -r" || c.name == "go:with_reflection,with_field_mask -r" || c.name == "fastgo -r") {
 				// every single iteration on its own
 				for k, line := range base.iters {
 					var b int
@@ -454,8 +455,8 @@ func main() {
 	}
 	for _, dp := range dps {
 		for _, c := range cfgs {
-			if c.diagOnly && dp.name != "annotated-same-base-name" {
-				continue
+			if c.diagOnly && (thorough || dp.name != "annotated-same-base-name") {
+				continue // thorough: the options on their own are covered by the worker runs
 			}
 			key := dp.name + "|" + c.name + "|stock"
 			var base *outcome
